@@ -330,7 +330,7 @@ def run(ctx):
         rejected += st == "rejected"
         if st == "crash":
             found += 1
-            ctx.report(f"crash:{c['id']}", "counterexample", "the compiler crashes instead of accepting or rejecting",
+            ctx_r.report(f"crash:{c['id']}", "counterexample", "the compiler crashes instead of accepting or rejecting",
                        {"case": c["id"], "error": rec["error"], **replay_text(ctx, prelude, c)})
             continue
         if pos == "Bin":
@@ -338,13 +338,13 @@ def run(ctx):
             # the coercion (its type -> the wider type)
             if st != "ok":
                 found += 1
-                ctx.report(f"reject:{c['id']}", "counterexample", "binary operator on two numeric types rejected",
+                ctx_r.report(f"reject:{c['id']}", "counterexample", "binary operator on two numeric types rejected",
                            {"case": c["id"], "error": rec["error"], **replay_text(ctx, prelude, c)})
                 continue
             chains, why = bin_chains(rec)
             if chains is None:
                 mismatches += 1
-                ctx.report(f"tree:{c['id']}", "correspondence", "binary operator lowered to an unexpected shape",
+                ctx_r.report(f"tree:{c['id']}", "correspondence", "binary operator lowered to an unexpected shape",
                            {"case": c["id"], "trees": rec["trees"], "why": why}, found_input=False)
                 continue
             for i, t in ((0, c["act"]), (1, c["exp"])):
@@ -357,7 +357,7 @@ def run(ctx):
                     bad = value_wrong(c["wide"], v, got)
                     if bad:
                         found += 1
-                        ctx.report(f"value:{c['id']}:a{i}:{w}", "counterexample", "coerced operand of a binary operator has the wrong value",
+                        ctx_r.report(f"value:{c['id']}:a{i}:{w}", "counterexample", "coerced operand of a binary operator has the wrong value",
                                    {"case": c["id"], "operand": f"a{i} = word {w} (value {v} as {t})", "ops_applied": chains[i],
                                     "expected": str(float(v) if c["wide"] == "float" else v), "observed": str(got), "tree": rec["trees"],
                                     **replay_text(ctx, prelude, c)})
@@ -366,7 +366,7 @@ def run(ctx):
                     mc = model[("PMethodOperand", t, c["wide"])]
                     if mc[0] != "A" or mc[1:] != chains[i]:
                         mismatches += 1
-                        ctx.report(f"chain:{c['id']}:a{i}", "correspondence", "operand coercion differs from the model",
+                        ctx_r.report(f"chain:{c['id']}:a{i}", "correspondence", "operand coercion differs from the model",
                                    {"case": c["id"], "operand": i, "model": mc, "implementation": chains[i], "tree": rec["trees"]}, found_input=False)
             if len(samples) < 3 and c["act"] != c["exp"]:
                 samples.append({"case": c["id"], "tree": rec["trees"]})
@@ -375,12 +375,12 @@ def run(ctx):
         sa = spec_accept(pos, a, e)
         if st == "ok" and sa is False:
             found += 1
-            ctx.report(f"accept:{c['id']}", "counterexample", f"a {a} is accepted where {e} is expected: implicit narrowing / unrelated types",
+            ctx_r.report(f"accept:{c['id']}", "counterexample", f"a {a} is accepted where {e} is expected: implicit narrowing / unrelated types",
                        {"case": c["id"], "position": pos, "actual": a, "expected": e, "trees": rec["trees"], **replay_text(ctx, prelude, c)})
             continue
         if st == "rejected" and sa is True:
             found += 1
-            ctx.report(f"reject:{c['id']}", "counterexample", f"a {a} is rejected where {e} is expected although {a} -> {e} is {'the same type' if a == e else 'a widening'}",
+            ctx_r.report(f"reject:{c['id']}", "counterexample", f"a {a} is rejected where {e} is expected although {a} -> {e} is {'the same type' if a == e else 'a widening'}",
                        {"case": c["id"], "position": pos, "actual": a, "expected": e, "error": rec["error"], **replay_text(ctx, prelude, c)})
             continue
         chain = None
@@ -388,7 +388,7 @@ def run(ctx):
             chain, leaf = impl_chain(c, rec)
             if chain is None:
                 mismatches += 1
-                ctx.report(f"tree:{c['id']}", "correspondence", "accepted program lowered to an unexpected shape",
+                ctx_r.report(f"tree:{c['id']}", "correspondence", "accepted program lowered to an unexpected shape",
                            {"case": c["id"], "trees": rec["trees"], "why": leaf}, found_input=False)
             else:
                 # value level, on the implementation's chain
@@ -403,21 +403,21 @@ def run(ctx):
                         bad = value_wrong(e, v, got)
                         if bad:
                             found += 1
-                            ctx.report(f"value:{c['id']}:{w}", "counterexample", f"implicit {a} -> {e} conversion changes the value",
+                            ctx_r.report(f"value:{c['id']}:{w}", "counterexample", f"implicit {a} -> {e} conversion changes the value",
                                        {"case": c["id"], "position": pos, "operand": f"word {w} (value {v} as {a})", "ops_applied": chain,
                                         "expected": str(float(v) if e == "float" else v), "observed": str(got), "why": bad,
                                         "tree": rec["trees"], **replay_text(ctx, prelude, c)})
                             break
                 elif chain:
                     mismatches += 1
-                    ctx.report(f"chain:{c['id']}", "correspondence", "conversion ops applied to a non-integer operand",
+                    ctx_r.report(f"chain:{c['id']}", "correspondence", "conversion ops applied to a non-integer operand",
                                {"case": c["id"], "implementation": chain}, found_input=False)
         if model is not None:
             mc = model[(pos, a, e)]
             ic = ["A"] + chain if st == "ok" and chain is not None else (["R"] if st == "rejected" else None)
             if ic is not None and mc != ic:
                 mismatches += 1
-                ctx.report(f"chain:{c['id']}", "correspondence", "model and compiler disagree on accept/reject or on the inserted ops",
+                ctx_r.report(f"chain:{c['id']}", "correspondence", "model and compiler disagree on accept/reject or on the inserted ops",
                            {"case": c["id"], "model": mc, "implementation": ic, "trees": rec["trees"], "error": rec["error"],
                             **replay_text(ctx, prelude, c)}, found_input=False)
         if len(samples) < 8 and a != e and st == "ok":
@@ -434,7 +434,7 @@ def run(ctx):
                 if int(float(v)) != m:
                     round_bad += 1
                     if round_bad <= 3:
-                        ctx.report(f"rne53:{v}", "correspondence", "rne53 (semantics of convert_u/convert_s) differs from CPython float()",
+                        ctx_r.report(f"rne53:{v}", "correspondence", "rne53 (semantics of convert_u/convert_s) differs from CPython float()",
                                    {"z": v, "rne53": m, "python": int(float(v))}, found_input=False)
         except RuntimeError as e:
             ctx.notes.append("rne53 evaluation failed: " + str(e)[-500:])
@@ -444,11 +444,11 @@ def run(ctx):
 
     # ---- broken proof / translator with no concrete input found
     if not info["ok"] and found == 0:
-        ctx.report("proof-broken:" + str(info["failed"])[:200], "proof-broken", str(info["failed"])[:300],
+        ctx_r.report("proof-broken:" + str(info["failed"])[:200], "proof-broken", str(info["failed"])[:300],
                    {"coq_or_translator_error": gen_error or vlib.CoqResult(False, info["log"]).error_excerpt(),
                     "searched": {"programs": len(cases), "value_evaluations": value_evals}}, found_input=False)
     elif info["ok"] and model is None:
-        ctx.report("model-eval", "correspondence", "model table could not be evaluated", {"error": model_err}, found_input=False)
+        ctx_r.report("model-eval", "correspondence", "model table could not be evaluated", {"error": model_err}, found_input=False)
 
     cov = proof_coverage(
         info, "make -f Makefile.C16 C16/Props.vo && coqc C16/Props.v (Print Assumptions)",
